@@ -600,8 +600,13 @@ func TestVerif_C16(t *testing.T) {
 	if env.OutDir == "" {
 		t.Skip("VERIF_OUT not set")
 	}
+	// the same scenarios and records serve two properties: C16 (default) and the decorator leg of C06
+	prop, checkFn := "C16", "C16_check"
+	if os.Getenv("VERIF_PROP") == "C06d" {
+		prop, checkFn = "C06d", "C06d_check"
+	}
 	header := "From MC Require Import Check.Decorator_check.\nOpen Scope string_scope.\n"
-	w, err := vh.NewCaseWriter(env.OutDir, "C16", header, 40)
+	w, err := vh.NewCaseWriter(env.OutDir, prop, header, 40)
 	if err != nil {
 		t.Fatal(err)
 	}
@@ -626,7 +631,7 @@ func TestVerif_C16(t *testing.T) {
 		if n == 0 {
 			n = 100
 		}
-		scs = c16GenerateScenarios(env.Seed, n, os.Getenv("VERIF_ADV") == "1")
+		scs = c16GenerateScenarios(prop, env.Seed, n, os.Getenv("VERIF_ADV") == "1")
 	}
 	for i, sc := range scs {
 		replayCopy := c16CloneScenario(sc) // the run consumes Hook2
@@ -639,12 +644,15 @@ func TestVerif_C16(t *testing.T) {
 			sc.Features = append(sc.Features, "writes-explicit-null-status")
 		}
 		replay := c16J{"scenario": replayCopy, "features": sc.Features, "results": c16RoundResults(rec), "trace": c16TraceSummary(rec)}
-		if err := w.Add(id, c16CoqCase(rec), "C16_check", replay); err != nil {
+		if err := w.Add(id, c16CoqCase(rec), checkFn, replay); err != nil {
 			t.Fatal(err)
 		}
 		w.Count("family-" + sc.Family)
 		for _, f := range sc.Features {
 			w.Count("feature-" + f)
+			if strings.HasPrefix(f, "method-") || strings.HasPrefix(f, "attachment-") {
+				w.Count(f)
+			}
 		}
 		// an unmarked object controlled by the target exists, and a hook was asked (and answered) in a recorded round
 		for _, f := range sc.Features {
